@@ -46,6 +46,7 @@ type Violation struct {
 	Decisions []int64    `json:"decisions,omitempty"`
 	Tags      []string   `json:"tags,omitempty"`
 	Known     string     `json:"known,omitempty"` // id of the known finding it is attributed to
+	Sched     bool       `json:"schedule_dependent,omitempty"`
 }
 
 // Trace is a completed path with a model, used for native differential replay.
@@ -144,6 +145,7 @@ type explorer struct {
 	res          *BatchResult
 	seenFuncs    map[*ssa.Function]bool
 	inInit       bool
+	usedSched    bool
 	reportedFunc map[*ssa.Function]bool
 }
 
@@ -528,7 +530,7 @@ func (e *explorer) fail(kind, label, site string, bad *term, m map[string]uint64
 			}
 		}
 	}
-	v := Violation{Label: label, Kind: kind, Site: site}
+	v := Violation{Label: label, Kind: kind, Site: site, Sched: e.usedSched}
 	if len(matched) > 0 {
 		res, m2 := e.slv.checkWith(tand(bad, tnot(cause)), e.vars, true)
 		switch res {
@@ -712,6 +714,7 @@ func (w *Worker) runPath(it WorkItem, seed uint64) {
 	e.panicOrigin = ""
 	e.pathOutcome = "ok"
 	e.mapOrder = false
+	e.usedSched = false
 	e.slv.push()
 	w.i.resetPerPath()
 	completed := false
